@@ -15,10 +15,27 @@
 EXTENDS Integers, Sequences, FiniteSets, TLC
 
 CONSTANTS TE,     \* ecosystems to explore
-          TL      \* maximum number of appended tokens
+          TL,     \* maximum number of appended tokens
+          TMode   \* "v": version texts (stems + version tokens)   "r": range texts (no stem, range tokens)
 
+\* range tokens: a common core (comparators, star, numbers incl. 2^63-1, blanks, separators) plus what each
+\* ecosystem's range grammar knows (shorthand operators, brackets, keywords, stability flags, wildcards)
+RCore == <<">=", "<", "=", "!=", "*", "1", "1.0.0", "0", " ", ",", "-", ".", "9223372036854775807", "v">>
+RExtra(e) ==
+  CASE e = "npm"      -> <<"^", "~", "||", " - ", "x", "<=", ">">>
+    [] e = "cargo"    -> <<"^", "~", ".*", "<=", ">">>
+    [] e = "composer" -> <<"^", "~", "||", "|", " - ", ".*", "@", "@dev", "dev", "stable", "<>", "-dev">>
+    [] e = "conan"    -> <<"^", "~", "||", "<=", ">", "[", "]">>
+    [] e = "pypi"     -> <<"~=", "==", "===", ".*", "<=", ">", "!", "a1", ".post1">>
+    [] e = "gem"      -> <<"~>", "<=", ">", ".rc1">>
+    [] e = "hex"      -> <<"~>", "and", "or", "==", "<=", ">">>
+    [] e \in {"maven", "nuget"} -> <<"[", "]", "(", ")", "<=", ">">>
+    [] e \in {"debian", "rpm", "alpm"} -> <<"<<", ">>", "<=", ">", ":", "~", "and">>
+    [] e \in {"alpine", "gentoo"} -> <<"<=", ">", "_rc1", "-r1", "~">>
+    [] e = "golang"   -> <<"<=", ">", "v1.0.0", "-0.20200101000000-abcdef012345">>
+    [] OTHER          -> <<"<=", ">", "~", "^", "||">>
 SemverToks == <<"0", "1", "10", "01", ".", "-", "+", "a", "A", "rc", "x">>
-Alphabet(e) ==
+VAlphabet(e) ==
   CASE e \in {"semver", "npm", "cargo", "hex", "nuget"} -> SemverToks
     [] e = "golang"  -> <<"0", "1", "10", ".", "-", "+", "a", "rc", "pre", "20200101000000", "abcdef012345", "incompatible">>
     [] e = "pypi"    -> <<"0", "1", "10", ".", "a", "b", "c", "rc", "alpha", "post", "rev", "r", "dev", "+", "!", "-", "_", "x">>
@@ -35,7 +52,8 @@ Alphabet(e) ==
     [] e = "apache"  -> <<"0", "1", "10", ".", "-", "M", "RC", "alpha", "beta", "rc", "x", "v20200101">>
     [] e = "github"  -> <<"0", "1", "10", "2024", ".", "-", "alpha", "beta", "rc", "x">>
     [] e = "mattermost" -> <<"0", "1", "10", ".", "-", "rc", "esr", "x">>
-Stems(e) ==
+Alphabet(e) == IF TMode = "r" THEN RCore \o RExtra(e) ELSE VAlphabet(e)
+VStems(e) ==
   CASE e \in {"semver", "cargo", "hex"} -> {"1.0.0", "1.0.0-", "1.0.0-a.", "1.0."}
     [] e \in {"npm", "nuget"} -> {"1.0.0", "1.0.0-", "v1.0.", "1.0.0-a.", "=1.0.0"}
     [] e = "golang"  -> {"v1.0.0", "v1.0.0-", "1.0.0-0.", "v1.0.1-0."}
@@ -50,6 +68,8 @@ Stems(e) ==
     [] e = "apache"  -> {"1.0.", "1.0.0", "1.0.0-"}
     [] e = "github"  -> {"1.0.", "v1.0.0", "v1.0.0-", "release-1.0."}
     [] e = "mattermost" -> {"1.0.", "v1.0.0", "1.0.0-"}
+
+Stems(e) == IF TMode = "r" THEN {""} ELSE VStems(e)
 
 VARIABLES teco, ttext, tlen
 tvars == <<teco, ttext, tlen>>
